@@ -531,7 +531,7 @@ func relayOp(r *relayInst, fs []string) string {
 			granted = "granted"
 		}
 		return strconv.Itoa(st) + " " + bodyKind(body, ct) + " " + granted
-	case fs[0] == "ws" && (len(fs) == 3 || len(fs) == 4):
+	case fs[0] == "ws" && (len(fs) == 3 || len(fs) == 4 || len(fs) == 5):
 		path, ok := unhex(fs[1])
 		if !ok {
 			return "bad-op"
@@ -550,8 +550,12 @@ func relayOp(r *relayInst, fs []string) string {
 			}
 		}
 		ua := "ua" + strconv.Itoa(len(r.conns))
-		if len(fs) == 4 {
+		xff := "10.9.8." + strconv.Itoa(len(r.conns)%250)
+		if len(fs) >= 4 {
 			ua, _ = unhex(fs[3])
+		}
+		if len(fs) == 5 {
+			xff, _ = unhex(fs[4])
 		}
 		url := "ws://127.0.0.1:" + strconv.Itoa(r.wsPort) + escPath(path)
 		if fs[2] != "-" {
@@ -563,7 +567,7 @@ func relayOp(r *relayInst, fs []string) string {
 			<-r.done
 		}
 		before := r.members()
-		hdr := http.Header{"User-Agent": []string{ua}, "X-Forwarded-For": []string{"10.9.8." + strconv.Itoa(len(r.conns)%250)}}
+		hdr := http.Header{"User-Agent": []string{ua}, "X-Forwarded-For": []string{xff}}
 		d := websocket.Dialer{HandshakeTimeout: 5 * time.Second}
 		c, resp, err := d.Dial(url, hdr)
 		if err != nil {
